@@ -1,0 +1,49 @@
+//go:build verif
+
+// Contracts for the internal key coder, checked by /verif/kbv (build tag "verif").
+// This file contains comments only; it adds no declarations to the package.
+
+package coder
+
+//@ global [magicBytes] len(magicBytes) == 4 && magicBytes[0] == 0x57 && magicBytes[1] == 0xfb && magicBytes[2] == 0x80 && magicBytes[3] == 0x8b
+//@ global [magic] len(magic) == 4 && magic[0] == 0x57 && magic[1] == 0xfb && magic[2] == 0x80 && magic[3] == 0x8b
+//@ global [splitByte] splitByte == '$'
+//@ global [splitKey] len(splitKey) == 1 && splitKey[0] == '$'
+//@ global [errfmt] ErrInvalidRevFormat != nil
+
+//@ func Coder.EncodeObjectKey(key, revision) (result)
+//@   assumed
+//@   ensures [len] len(result) == len(key)+13
+//@   ensures [bytes] is_enc(result, key, revision)
+//@   ensures [fresh] fresh(result)
+
+//@ func Coder.EncodeRevisionKey(key) (result)
+//@   assumed
+//@   ensures [len] len(result) == len(key)+13
+//@   ensures [bytes] is_enc(result, key, uint64(0))
+//@   ensures [fresh] fresh(result)
+
+//@ func Coder.Decode(internalKey) (userKey, revision, err)
+//@   assumed
+//@   requires [minlen] len(internalKey) >= 13
+//@   ensures [err-iff] (err == nil) == (internalKey[0] == 0x57 && internalKey[1] == 0xfb && internalKey[2] == 0x80 && internalKey[3] == 0x8b && internalKey[len(internalKey)-9] == '$')
+//@   ensures [key] err == nil ==> bytes_eq(userKey, internalKey[4:len(internalKey)-9])
+//@   ensures [key-alias] err == nil ==> userKey.obj == internalKey.obj && userKey.off == internalKey.off+4 && len(userKey) == len(internalKey)-13
+//@   ensures [rev] err == nil ==> revision == be64_of(internalKey[len(internalKey)-8:])
+//@   ensures [err-zero] err != nil ==> revision == 0 && is_nil(userKey)
+
+//@ func (*normalEncoderDecoder).EncodeObjectKey
+//@   same_as Coder.EncodeObjectKey
+//@   props C10
+//@ func (*normalEncoderDecoder).EncodeRevisionKey
+//@   same_as Coder.EncodeRevisionKey
+//@   props C10
+//@ func (*normalEncoderDecoder).Decode
+//@   same_as Coder.Decode
+//@   props C10
+
+//@ func ParseRevision(revisionBytes) (rev, isTombStone, err)
+//@   props C10
+//@   ensures [len8] len(revisionBytes) == 8 ==> rev == be64_of(revisionBytes) && !isTombStone && err == nil
+//@   ensures [len9] len(revisionBytes) == 9 ==> rev == be64_of(revisionBytes) && isTombStone && err == nil
+//@   ensures [other] len(revisionBytes) != 8 && len(revisionBytes) != 9 ==> err != nil && rev == 0 && !isTombStone
